@@ -88,10 +88,20 @@ func TestLiveness(t *testing.T) {
 		s.AllowInvalidProposals = true
 		s.Tracef("net powers=%v byz=%v", powers, byz)
 		caseText := func() string { return s.TraceText() }
+		// one case in three: correct nodes may be restarted during the prefix (graceful stop, new process on the same
+		// database and consensus log through the product's own ConsensusState.Start with WAL catch-up)
+		withRestarts := rapid.IntRange(0, 2).Draw(t, "restarts") == 0
+		if withRestarts {
+			s.EnableRestarts()
+			s.Tracef("restarts enabled")
+		}
 		ev.Guard(t, caseText, func() { s.Start() })
 		n := rapid.IntRange(0, maxPrefix).Draw(t, "prefix")
 		for i := 0; i < n; i++ {
 			ev.Guard(t, caseText, func() { s.Step(t) })
+		}
+		if s.RestartErr != nil {
+			ev.Violation(t, "liveness.restart-failed", caseText(), "a correct node could not be restarted on its own files: %v", s.RestartErr)
 		}
 		// state at the start of the synchronous suffix
 		var classes []string
@@ -123,6 +133,12 @@ func TestLiveness(t *testing.T) {
 		}
 		if len(byz) > 0 {
 			classes = append(classes, "byzantine-present")
+		}
+		if s.Stat["restart"] > 0 {
+			classes = append(classes, "node-restarted-in-prefix")
+			if s.Stat["restart"] > 1 {
+				classes = append(classes, "several-restarts-in-prefix")
+			}
 		}
 		classes = append(classes, fmt.Sprintf("validators=%d", len(powers)))
 		start := s.MaxHeight(s.Correct)
@@ -179,7 +195,7 @@ func TestLiveness(t *testing.T) {
 		if v := s.AgreementViolation(); v != "" {
 			ev.Violation(t, "agreement", s.TraceText(), "%s", v)
 		}
-		nontrivial := locked || partial || spread > 0
+		nontrivial := locked || partial || spread > 0 || s.Stat["restart"] > 0
 		ev.Case(nontrivial, s.TraceText(), classes...)
 		for k, v := range s.Stat {
 			ev.ClassN("step:"+k, int64(v))
